@@ -1,6 +1,7 @@
 # Copyright (c) Microsoft Corporation. All rights reserved.
 # Licensed under the MIT License.
 
+import copy
 import pathlib
 from typing import List
 
@@ -22,6 +23,9 @@ PACKAGE_DIR_NAME = "lsprotocol"
 
 
 def generate_from_spec(spec: model.LSPModel, output_dir: str, test_dir: str) -> None:
+    # The plugin names literals, adds and changes declarations while it works:
+    # on a copy, so that the caller's model stays as loaded for the next plugin.
+    spec = copy.deepcopy(spec)
     code = generate_package_code(spec)
 
     output_path = pathlib.Path(output_dir, PACKAGE_DIR_NAME)
